@@ -1,7 +1,9 @@
 package main
 
 import (
+	"encoding/json"
 	"fmt"
+	"os"
 
 	"verif/harness/gen"
 )
@@ -72,7 +74,20 @@ type envGen struct {
 	idMuts  bool               // also mutate the parent key id of records
 }
 
+// envJournal, when set, receives every case header and operation BEFORE it runs: if the process dies (a Go panic on a goroutine of
+// the SDK cannot be recovered by the harness) the journal's tail is the history that killed it.
+var envJournal *os.File
+
+func journal(v any) {
+	if envJournal == nil {
+		return
+	}
+	b, _ := json.Marshal(v)
+	envJournal.Write(append(b, '\n'))
+}
+
 func (g *envGen) do(op EnvOp) EnvObs {
+	journal(map[string]any{"op": op})
 	ob := g.x.do(op)
 	g.cs.Ops = append(g.cs.Ops, op)
 	g.cs.Obs = append(g.cs.Obs, ob)
@@ -203,6 +218,7 @@ func (g *envGen) latestKey(prefix string, part string) (string, int64, bool) {
 func genEnvCase(r *gen.Rand, cfgName string, mode string) *EnvCase {
 	t0 := int64(1790000000)*secNs + int64(r.Intn(120))*secNs + int64(r.Intn(3))*(secNs/2)
 	cs := &EnvCase{T0: t0, Cfg: cfgName}
+	journal(map[string]any{"start": map[string]any{"t0": t0, "cfg": cfgName, "tags": []string{fmt.Sprintf("random/%s/%s", cfgName, mode)}}})
 	x := newEnvExec(t0)
 	defer x.close()
 	g := &envGen{r: r, x: x, cs: cs, pol: envPolicies()[cfgName], keys: map[string][]int64{}}
@@ -232,6 +248,31 @@ func genEnvCase(r *gen.Rand, cfgName string, mode string) *EnvCase {
 		p := gen.Pick(r, g.parts)
 		if s := g.session(f, p); s >= 0 {
 			sess = append(sess, sh{s, f, p})
+		}
+	}
+	if mode != "malformed" && r.Chance(1, 4) {
+		// staggered generations: partition p2's intermediate key is younger than the system key it was created under, the system key
+		// expires first, the next write rotates both, and one interval later the session reads a record of the old generation and
+		// writes again (the old intermediate key is still within its own lifetime: it must not come back into use)
+		f := facts[0]
+		if sA := g.session(f, "p1"); sA >= 0 {
+			sess = append(sess, sh{sA, f, "p1"})
+			g.nextPl++
+			g.do(EnvOp{K: "encrypt", S: sA, Payload: g.nextPl})
+			g.do(EnvOp{K: "advance", D: g.pol.Expire / 2})
+			if sB := g.session(f, "p2"); sB >= 0 {
+				sess = append(sess, sh{sB, f, "p2"})
+				g.nextPl++
+				g.do(EnvOp{K: "encrypt", S: sB, Payload: g.nextPl})
+				oldRec := len(x.recs) - 1
+				g.do(EnvOp{K: "advance", D: g.pol.Expire/2 + 1})
+				g.nextPl++
+				g.do(EnvOp{K: "encrypt", S: sB, Payload: g.nextPl})
+				g.do(EnvOp{K: "advance", D: g.pol.RCI + 1})
+				g.do(EnvOp{K: "decrypt", S: sB, Rec: oldRec})
+				g.nextPl++
+				g.do(EnvOp{K: "encrypt", S: sB, Payload: g.nextPl})
+			}
 		}
 	}
 	openSession()
@@ -308,6 +349,24 @@ func genEnvCase(r *gen.Rand, cfgName string, mode string) *EnvCase {
 			pre := gen.Pick(r, []string{"_IK_", "_SK_"})
 			if id, created, ok := g.latestKey(pre, h.part); ok {
 				g.do(EnvOp{K: gen.Pick(r, []string{"dropparent", "corruptkey"}), ID: gen.H(id), Created: created})
+				if r.Chance(1, 2) { // read through COLD caches (a new process): every key has to come from the damaged table
+					nf := g.newFactory()
+					facts = append(facts, nf)
+					if s := g.session(nf, h.part); s >= 0 {
+						sess = append(sess, sh{s, nf, h.part})
+						var cand []int
+						for j, ri := range x.recInfo {
+							if ri.Part == gen.H(h.part) {
+								cand = append(cand, j)
+							}
+						}
+						if len(cand) > 0 {
+							rec := gen.Pick(r, cand)
+							g.do(EnvOp{K: "decrypt", S: s, Rec: rec})
+							g.do(EnvOp{K: "decrypt", S: s, Rec: rec})
+						}
+					}
+				}
 			}
 		case c < 98:
 			// factory restart: close its sessions, close it, open a new one
@@ -382,6 +441,22 @@ func genEnvCase(r *gen.Rand, cfgName string, mode string) *EnvCase {
 			}
 		}
 	}
+	// the re-read that is due after the revoke-check interval fails: the operation has to fail, not fall back on the stale cached key
+	if mode != "malformed" && len(sess) > 0 && r.Chance(1, 3) {
+		h := gen.Pick(r, sess)
+		old := -1
+		for j, ri := range x.recInfo {
+			if ri.Part == gen.H(h.part) {
+				old = j
+			}
+		}
+		if old >= 0 {
+			g.do(EnvOp{K: "decrypt", S: h.s, Rec: old})
+			g.do(EnvOp{K: "advance", D: g.pol.RCI + 1})
+			g.do(EnvOp{K: "decrypt", S: h.s, Rec: old, Faults: [][2]any{{r.Intn(2), "err"}}})
+			g.do(EnvOp{K: "decrypt", S: h.s, Rec: old})
+		}
+	}
 	// a system key revoked long ago, then a write that has to create an intermediate key (first write of a new partition, or the
 	// partition's intermediate key is revoked as well): the new key must not be created under the revoked system key
 	if mode != "malformed" && mode != "norevoke" && len(sess) > 0 && r.Chance(1, 3) {
@@ -439,7 +514,9 @@ func replayEnvCase(in *EnvCase) *EnvCase {
 			x.enableLeakScan()
 		}
 	}
+	journal(map[string]any{"start": map[string]any{"t0": in.T0, "cfg": in.Cfg, "tags": in.Tags}})
 	for _, op := range in.Ops {
+		journal(map[string]any{"op": op})
 		cs.Ops = append(cs.Ops, op)
 		cs.Obs = append(cs.Obs, x.do(op))
 	}
@@ -451,6 +528,12 @@ func replayEnvCase(in *EnvCase) *EnvCase {
 func runEnv(a *args) error {
 	r := gen.New(a.seed)
 	var out []*EnvCase
+	if a.out != "" && a.out != "-" {
+		if f, err := os.Create(a.out + ".journal"); err == nil {
+			envJournal = f
+			defer func() { f.Close(); os.Remove(a.out + ".journal") }()
+		}
+	}
 	if a.replay != "" {
 		var rp struct {
 			Case  *EnvCase
